@@ -919,7 +919,7 @@ def prepare(d):
     shape = tuple(d['shape'])
     be, dt, seed = d['backend'], d['dtype'], d['seed']
     for k in list(kw):
-        if kw[k] == 'inf':
+        if isinstance(kw[k], str) and kw[k] == 'inf':
             kw[k] = np.inf
     if 'kernel' in kw:
         kw['kernel'] = _kernel(kw['kernel'])
@@ -1407,6 +1407,17 @@ def run(ctx):
         ids('perlin.perlin', seed_arg=3, backend='dask') + ids('terrain.generate_terrain', seed_arg=7, backend='dask', template='zeros') + \
         ids('terrain.generate_terrain', seed_arg=3, backend='dask', template='ramp')
     seqs[0] = seqs[0][:max(0, len(seqs[0]) - 24)] + [perl, bump, perl] + xt3 + kern + shared + gen + tcblock + lazyblock
+    # theme streams (appended after every earlier draw): a rotating sample of the layout / chunking / list-parameter /
+    # degenerate-shape entries and calls on rasters derived from the shared, already processed raster
+    def pick(pred, n):
+        pool = [d['id'] for d in cat if pred(d) and not d['fn'].startswith('proximity.')]
+        return rng.sample(pool, min(n, len(pool)))
+    ro = lambda d, key: any(key in o for o in (d['kw'].get('ropts') or []))       # noqa: E731
+    themeblock = pick(lambda d: ro(d, 'layout'), 2) + pick(lambda d: ro(d, 'chunks'), 3) + \
+        pick(lambda d: d['kw'].get('derive') and d['kw'].get('share') == sh, 3) + \
+        pick(lambda d: d['shape'] in ([1, 1], [1, 5], [5, 1], [2, 2]) or ro(d, 'fill'), 1) + \
+        pick(lambda d: d['kw'].get('as_array') or d['kw'].get('scale') or ro(d, 'coords'), 2)
+    seqs[0] = seqs[0] + themeblock
     run_sequences(ctx, seqs, threads)
     ctx.exhaustive = False
     # ./check only widens the search when NO oracle violation was seen; the known bump finding is always seen, so
